@@ -284,7 +284,7 @@ def run_shard(ctx, spec):
         rnd = random.Random(seed)
         prog, src, globals0, pg = gen_program(rnd, size)
         globals0 = {k: v for k, v in globals0.items() if not callable(v)}
-        model = impl.bs.parse_script(src)
+        model = impl.parse_valid(src, {'kind': 'source', 'source': src})
         b = check_model(model, globals0, 3000, validate=False, hosts=True)
         if b is None:
             ctx.discard('indeterminate')
